@@ -657,6 +657,34 @@ fn units_of(keys: &BuildersKeys, problems: &mut Vec<String>, n_literals: &mut us
     units
 }
 
+/// `translations-path` of the project's manifest, if any
+fn translations_path(dir: &std::path::Path) -> Option<String> {
+    let text = std::fs::read_to_string(dir.join("Cargo.toml")).ok()?;
+    let v: toml::Value = toml::from_str(&text).ok()?;
+    v.get("package")?.get("metadata")?.get("leptos-i18n")?.get("translations-path")?.as_str().map(String::from)
+}
+
+/// String literals given as `endpoint = ".."` in the generated code (the `#[server(endpoint = ..)]` of every unit)
+fn endpoints(ts: proc_macro2::TokenStream, out: &mut Vec<String>) {
+    use proc_macro2::TokenTree as T;
+    let toks: Vec<T> = ts.into_iter().collect();
+    for (i, t) in toks.iter().enumerate() {
+        match t {
+            T::Group(g) => endpoints(g.stream(), out),
+            T::Ident(id) if id == "endpoint" => {
+                if let (Some(T::Punct(p)), Some(T::Literal(l))) = (toks.get(i + 1), toks.get(i + 2)) {
+                    if p.as_char() == '=' {
+                        if let Ok(s) = syn::parse_str::<syn::LitStr>(&l.to_string()) {
+                            out.push(s.value());
+                        }
+                    }
+                }
+            }
+            _ => {}
+        }
+    }
+}
+
 /// Tables baked into the generated code: `impl TranslationUnit for X_<locale> { const STRINGS: &[&str; N] = &[..]; }`
 fn baked_tables(ts: &proc_macro2::TokenStream) -> Result<Vec<(String, usize, Vec<String>)>, String> {
     use syn::visit::Visit;
@@ -1009,11 +1037,42 @@ pub fn run_write_case(scratch: &Scratch, project: &Project, case: &Value) -> Val
             if let Some(b) = baked.as_object_mut() {
                 b.insert("table_types_checked".into(), json!(arr.len()));
             }
+            // client-side dynamic loading: the table the generated code requests for (namespace, locale) is the one
+            // exported for that namespace and locale, i.e. `translations-path` with the *names* substituted
+            if cfg!(all(feature = "dynamic_load", feature = "csr")) {
+                if let Some(tp) = translations_path(&dir) {
+                    let mut got = vec![];
+                    endpoints(ts.clone(), &mut got);
+                    let got: std::collections::BTreeSet<String> = got.into_iter().collect();
+                    let mut want = std::collections::BTreeSet::new();
+                    for u in &units {
+                        for (name, _, _) in &u.locales {
+                            want.insert(tp.replace("{locale}", name).replace("{namespace}", &u.scope));
+                        }
+                    }
+                    if got != want {
+                        let missing: Vec<&String> = want.difference(&got).take(3).collect();
+                        let extra: Vec<&String> = got.difference(&want).take(3).collect();
+                        problems.push(format!("generated code requests tables under other names than `translations-path` gives the exported ones: not requested {missing:?}, requested but never exported {extra:?}"));
+                    }
+                    if let Some(b) = baked.as_object_mut() {
+                        b.insert("endpoints_checked".into(), json!(got.len()));
+                    }
+                }
+            }
         } else {
             baked = rep;
         }
     }
+    // what this build of the parser exports, independent of where it was written (compared across builds by ./check)
+    let export_digest = if op == "none" {
+        let all: Vec<(&str, &str, &Vec<String>)> = units.iter().flat_map(|u| u.locales.iter().map(move |(n, s, _)| (u.scope.as_str(), n.as_str(), s))).collect();
+        json!(format!("{:016x}", simkit::fnv(serde_json::to_string(&all).unwrap().as_bytes())))
+    } else {
+        json!(null)
+    };
     json!({
+        "export_digest": export_digest,
         "fired": fired, "result": result, "files": files, "durable_problems": durable_problems,
         "table_problems": problems, "literals_checked": n_literals, "baked": baked, "sample": sample,
         "units": units.iter().map(|u| json!({"scope": u.scope, "locales": u.locales.iter().map(|(n, s, _)| json!([n, s.len()])).collect::<Vec<_>>()})).collect::<Vec<_>>(),
